@@ -339,6 +339,45 @@ pub fn check_c08_evo(c: &EvoCase, acc: &mut Acc, record: bool) -> Verdict {
     Verdict::Pass
 }
 
+/// sequences whose element count lies around the sizes at which an implementation may change strategy, with elements
+/// of one or two bytes, so that a cut anywhere yields a stream that still looks like a (shorter) sequence
+fn long_seq_strategy() -> BoxedStrategy<TV> {
+    let a = |t: Ty| Arc::new(t);
+    let tys = vec![Ty::Vec(a(Ty::Bool)), Ty::Vec(a(Ty::I8)), Ty::LinkedList(a(Ty::Bool)), Ty::Vec(a(Ty::Option(a(Ty::U16)))), Ty::Vec(a(Ty::U16)), Ty::Vec(a(Ty::Vec(a(Ty::Bool)))), Ty::Tuple(vec![Ty::U8, Ty::Vec(a(Ty::I8))])];
+    (prop::sample::select(tys), prop::sample::select(vec![255usize, 256, 257, 1023, 1024, 1025, 1026, 1500, 2047, 2048, 2049]), any::<u64>())
+        .prop_map(|(ty, n, seed)| {
+            let mut s = seed | 1;
+            let mut next = move || {
+                s ^= s << 13;
+                s ^= s >> 7;
+                s ^= s << 17;
+                s
+            };
+            fn fill(t: &Ty, n: usize, next: &mut dyn FnMut() -> u64) -> Val {
+                match t {
+                    Ty::Bool => Val::Bool(next() & 1 == 1),
+                    Ty::I8 => Val::Int((next() as i8) as i128),
+                    Ty::U8 => Val::Int((next() as u8) as i128),
+                    Ty::U16 => Val::Int((next() as u16) as i128),
+                    Ty::Option(i) => {
+                        if next() % 3 == 0 {
+                            Val::some(fill(i, n, next))
+                        } else {
+                            Val::None
+                        }
+                    }
+                    // the outermost sequence has n elements, inner ones 0-2
+                    Ty::Vec(e) | Ty::LinkedList(e) => Val::Seq((0..n).map(|_| fill(e, (next() % 3) as usize, next)).collect()),
+                    Ty::Tuple(ts) => Val::Tuple(ts.iter().map(|t| fill(t, n, next)).collect()),
+                    other => panic!("long_seq_strategy: {other:?}"),
+                }
+            }
+            let val = fill(&ty, n, &mut next);
+            TV { ty, val, forms: vec![] }
+        })
+        .boxed()
+}
+
 pub fn run_c08(cx: &Cx) -> PropResult {
     let per_shard = cx.n(1_500, 60_000);
     let acc = parallel(cx, &|shard, acc| {
@@ -366,13 +405,16 @@ pub fn run_c08(cx: &Cx) -> PropResult {
                 return;
             }
         }
+        // long sequences of short elements (hundreds to a few thousand), every cut
+        let strat = long_seq_strategy();
+        drive(crate::run::tag_seed(derive_seed(cx.seed, cx.prop, shard as u64, 4), 4), &strat, cx.n(4, 150), acc, &|c: &TV| to_json(c), &mut |c, a, r| check_c08(c, a, r));
     });
     let mut acc = acc;
     crate::props::builtin::reduce_violations(&mut acc, &|c, a, r| check_c08(c, a, r));
     let mut r = PropResult::new(
         acc,
         "fault_enumeration",
-        "for every generated (type, value) the encoding is cut at EVERY offset 0 <= k < len (exhaustive per value) and each prefix is decoded with the writing definition; the result must be Err. evaluations = number of (value, cut) pairs; classes = kind of site the cut lands in (from the reference encoder's site map). Non-trivial = cut at an offset > 0; distinct by hash of (T, v, k). Valid encodings include the reference encoder's unknown-length renderings. Evolved records: (history, w, r, value, placement) cases from run-time histories and the compiled batch are cut at every offset and read by version r whenever the stored version is >= 1.",
+        "for every generated (type, value) the encoding is cut at EVERY offset 0 <= k < len (exhaustive per value) and each prefix is decoded with the writing definition; the result must be Err. evaluations = number of (value, cut) pairs; classes = kind of site the cut lands in (from the reference encoder's site map). Non-trivial = cut at an offset > 0; distinct by hash of (T, v, k). Valid encodings include the reference encoder's unknown-length renderings, and a stream of long sequences (255-2049 one- or two-byte elements, flat, nested and behind a sibling). Evolved records: (history, w, r, value, placement) cases from run-time histories and the compiled batch are cut at every offset and read by version r whenever the stored version is >= 1.",
     );
     r.assumptions = vec!["soundness of the oracle: decoding consumes exactly the encoding (C07) and control flow depends only on bytes already read, so a strict prefix forces a read past the end".into()];
     r
@@ -412,6 +454,8 @@ pub enum Form {
     /// serialize_iterator over an iterator whose size hint is bounded but inexact: (lo, Some(hi)) with lo <= n <= hi, lo < hi
     WriterBoundedHint,
     RefUnknown,
+    /// the reference encoder's unknown-length rendering of the list AND of every sequence inside its elements
+    RefUnknownAll,
 }
 
 #[derive(Debug, Clone, Serialize, Deserialize)]
@@ -491,7 +535,24 @@ pub fn cont_case_strategy() -> BoxedStrategy<ContCase> {
             (Just(s), Just(d), len.prop_flat_map(|l| proptest::collection::vec(any::<u8>(), l..=l)))
         })
         .prop_map(|(src, dst, b)| ContCase { elem: Ty::U8, elem2: None, xs: Val::Bytes(b), src, dst, form: Form::Known });
-    prop_oneof![4 => seqs, 2 => anyseq, 3 => maps, 2 => bytes].boxed()
+    // (5) many small sequences in one value, and sequences around the sizes at which an implementation may switch
+    // strategy: rows of 0-2 elements, row counts from a list of thresholds
+    let rows = (
+        prop::sample::select(vec![Ty::U16, Ty::Bool, Ty::Str, Ty::I8]),
+        prop::sample::select(vec![0usize, 1, 2, 7, 31, 32, 33, 63, 64, 65, 100, 127, 128, 129, 200, 255, 256, 257, 300, 1023, 1024, 1025, 1100]),
+        prop::sample::select(vec![Cont::Vec, Cont::LinkedList, Cont::Slice]),
+        prop::sample::select(vec![Cont::Vec, Cont::LinkedList]),
+        prop::sample::select(vec![Form::Known, Form::WriterUnknown, Form::RefUnknown, Form::RefUnknownAll, Form::RefUnknownAll]),
+        any::<bool>(),
+    )
+        .prop_flat_map(move |(e, n, s, d, f, flat)| {
+            // flat: one long sequence of leaves; otherwise n rows
+            let elem = if flat { e.clone() } else { Ty::Vec(Arc::new(e.clone())) };
+            let inner = val_strategy(&elem, ValCfg { max_len: 2, long: false, ..ValCfg::default() });
+            (Just(elem), proptest::collection::vec(inner, n..=n).prop_map(Val::Seq), Just(s), Just(d), Just(f))
+        })
+        .prop_map(|(elem, xs, src, dst, form)| ContCase { elem, elem2: None, xs, src, dst, form });
+    prop_oneof![8 => seqs, 4 => anyseq, 6 => maps, 4 => bytes, 1 => rows].boxed()
 }
 
 fn as_container_val(c: Cont, xs: &Val) -> Val {
@@ -564,8 +625,8 @@ pub fn check_c12(c: &ContCase, acc: &mut Acc, record: bool) -> Verdict {
                 Err(e) => return Verdict::Fail(format!("serialize_iterator failed: {e:?}")),
             }
         }
-        Form::RefUnknown => {
-            // the reference encoder's unknown-length rendering of the list (root node only)
+        Form::RefUnknown | Form::RefUnknownAll => {
+            // the reference encoder's unknown-length rendering of the list (root node only, or every sequence node)
             let list_ty = match &c.elem2 {
                 Some(v) => Ty::Vec(Arc::new(Ty::Tuple(vec![c.elem.clone(), v.clone()]))),
                 None => Ty::Vec(Arc::new(c.elem.clone())),
@@ -573,13 +634,19 @@ pub fn check_c12(c: &ContCase, acc: &mut Acc, record: bool) -> Verdict {
             if c.elem == Ty::U8 {
                 return Verdict::Skip;
             }
-            let mut forms = ScriptForms::new(vec![true]);
+            let mut forms = ScriptForms::new(if c.form == Form::RefUnknownAll { vec![true; n + 1] } else { vec![true] });
             match ref_encode_forms(&list_ty, &c.xs, &mut forms) {
                 Ok(f) => (c.xs.clone(), f.bytes),
                 Err(e) => return Verdict::Fail(format!("HARNESS: reference encoder: {e:?}")),
             }
         }
     };
+    if record && n >= 64 {
+        acc.bump(if matches!(c.elem, Ty::Vec(_)) { "values_with_64_or_more_inner_sequences" } else { "sequences_of_64_or_more_elements" }, 1);
+        if n > 1024 {
+            acc.bump("sequences_of_more_than_1024_elements", 1);
+        }
+    }
     // an array target must have the length of what was written (a set source may have collapsed duplicates)
     let written_len = match &written {
         Val::Seq(x) => x.len(),
@@ -623,7 +690,7 @@ pub fn run_c12(cx: &Cx) -> PropResult {
     PropResult::new(
         acc,
         "exploration",
-        "cases = (element type E, element list xs with likely duplicates, source container S, target container D, size form): S in {Vec, &[E], [E;N], LinkedList, HashSet, BTreeSet, Rc<[E]>}, D in {Vec, [E;N], LinkedList, HashSet, BTreeSet}; lists of pairs <-> HashMap / BTreeMap / Vec<(K,V)>; byte containers Vec<u8>, &[u8], [u8;N], Bytes, Rc<[u8]> among themselves; forms: the writer's known-length form, the writer's unknown-length form (serialize_iterator over an iterator with an inexact size hint: unbounded (0, None) and bounded (lo, Some(hi)) with lo <= n <= hi as a filter adaptor reports) and the reference encoder's unknown-length form. Oracle: D decoded from S's bytes equals the elements as S wrote them (sequence equality for ordered targets, set/map equality with last-key-wins otherwise). Non-trivial = S != D or an unknown-length form, with a non-empty list.",
+        "cases = (element type E, element list xs with likely duplicates, source container S, target container D, size form): S in {Vec, &[E], [E;N], LinkedList, HashSet, BTreeSet, Rc<[E]>}, D in {Vec, [E;N], LinkedList, HashSet, BTreeSet}; lists of pairs <-> HashMap / BTreeMap / Vec<(K,V)>; byte containers Vec<u8>, &[u8], [u8;N], Bytes, Rc<[u8]> among themselves; forms: the writer's known-length form, the writer's unknown-length form (serialize_iterator over an iterator with an inexact size hint: unbounded (0, None) and bounded (lo, Some(hi)) with lo <= n <= hi as a filter adaptor reports) and the reference encoder's unknown-length form (of the list, or of the list and every sequence inside its elements); one case in 23 is a long list (up to 1100 leaves) or a list of up to 1100 small rows, with lengths taken around powers of two. Oracle: D decoded from S's bytes equals the elements as S wrote them (sequence equality for ordered targets, set/map equality with last-key-wins otherwise). Non-trivial = S != D or an unknown-length form, with a non-empty list.",
     )
 }
 
